@@ -148,7 +148,7 @@ def run_shard(desc):
         # runs, the evaluation resumes): its result must be what the same call gives entirely before or entirely after the
         # registration -- both computed by the implementation itself in fresh sequential processes
         for h in range(n):
-            sc = (h + si) % 6
+            sc = (h + si) % 8
             nm = "mz%d_%d" % (si, h)
             gate = {"op": "reg_fn", "name": "gatef", "beh": {"id": 30, "ret": "last", "gate": 2}}
             nogate = {"op": "reg_fn", "name": "gatef", "beh": {"id": 30, "ret": "last"}}
@@ -173,6 +173,12 @@ def run_shard(desc):
                 pre = [{"op": "reg_infix", "name": nm, "prec": 20, "type": "SETTER", "assoc": "RIGHT", "beh": h1}]
                 reg = {"op": "reg_infix", "name": nm, "prec": 20, "type": "CALC", "assoc": "RIGHT", "beh": h2}
                 prog = "x %s gatef(1); x" % nm
+            elif sc == 6:  # an UNRELATED name is registered while a program that is not idempotent on its context is running: it runs once
+                reg = [{"op": "reg_fn", "name": nm, "beh": h2}, {"op": "reg_prefix", "name": nm, "beh": h2}, {"op": "reg_postfix", "name": nm, "beh": h2}][h % 3]
+                prog = "x += gatef(1); x"
+            elif sc == 7:
+                reg = {"op": "reg_infix", "name": nm, "prec": 115, "type": "CALC", "assoc": "LEFT", "beh": h2}
+                prog = "x *= gatef(2); y = x; x -= 1; [x, y]"
             else:          # a global function replaced while its (single) call is evaluating its argument
                 pre = [{"op": "reg_fn", "name": nm, "beh": h1}]
                 reg = {"op": "reg_fn", "name": nm, "beh": h2}
